@@ -145,8 +145,20 @@ type crashObs struct {
 }
 
 // openImage opens a reconstructed image with the real code and reports what it presents.
-func openImage(dir string, img []byte, prof Profile, pageSize int, n int) (obs crashObs) {
-	path := filepath.Join(dir, fmt.Sprintf("img-%d", n%8))
+func openImage(dir string, img []byte, prof Profile, pageSize int, n int) crashObs {
+	ch := make(chan crashObs, 1)
+	go func() { ch <- openImage1(dir, img, prof, pageSize, n) }()
+	select {
+	case o := <-ch:
+		return o
+	case <-time.After(30 * time.Second):
+		// recovery / integrity check / follow-up transaction of this image does not terminate
+		return crashObs{Err: "opening, checking or updating the crash image did not return within 30 s"}
+	}
+}
+
+func openImage1(dir string, img []byte, prof Profile, pageSize int, n int) (obs crashObs) {
+	path := filepath.Join(dir, fmt.Sprintf("img-%d", n))
 	_ = os.Remove(path)
 	if err := os.WriteFile(path, img, 0o600); err != nil {
 		obs.Err = err.Error()
@@ -175,7 +187,7 @@ func openImage(dir string, img []byte, prof Profile, pageSize int, n int) (obs c
 	}
 	defer db.Close()
 	obs.Opened = true
-	s := &Session{Prof: prof}
+	s := &Session{Prof: prof, DumpBudget: 2000000}
 	_ = db.View(func(tx *bolt.Tx) error {
 		obs.Txid = tx.ID()
 		obs.Content = hashDump(s.dumpBucket(tx, nil))
@@ -490,7 +502,7 @@ func CheckC01(c *Ctx) int {
 		c.ModelCheck("Bolt", "MC_Crash_deep.cfg", 16, 90*time.Minute)
 	}
 	scs := crashScenarios("c01", c.Pick(28, 400), c.Seed, c.Pick(900, 4000), c.Pick(3, 8))
-	o := RunScenarios(scs, ValidateSpec{Bolt: true}, filepath.Join(c.WorkDir, "runs"), 14, 2, 20*time.Minute)
+	o := RunScenarios(scs, ValidateSpec{Bolt: true}, filepath.Join(c.WorkDir, "runs"), 14, 2, time.Duration(c.Pick(6, 25))*time.Minute)
 	c.Absorb(o)
 	c.Cov["evaluations"] = o.Counters["crash_images"]
 	c.Cov["distinct_nontrivial"] = o.Counters["crash_strict_subset"] + o.Counters["crash_partial"] + o.Counters["crash_torn_meta"]
